@@ -122,6 +122,8 @@ func Run(cfg Config, opt Options) (*Result, error) {
 	popMode := os.FileMode(0604)
 	if cfg.Rel == "populated-ro" {
 		popMode = 0444
+	} else if o.OutDirOp && cfg.OutMode != 0 {
+		popMode = os.FileMode(cfg.OutMode)
 	}
 	for _, n := range cfg.Populate {
 		p := filepath.Join(env.OutDir, n)
